@@ -16,7 +16,9 @@ import (
 	"github.com/libp2p/go-libp2p/core/crypto"
 	"github.com/libp2p/go-libp2p/p2p/host/eventbus"
 	mocknet "github.com/libp2p/go-libp2p/p2p/net/mock"
+	mh "github.com/multiformats/go-multihash"
 	"github.com/prometheus/client_golang/prometheus"
+	"google.golang.org/protobuf/proto"
 
 	ipfslog "berty.tech/go-ipfs-log"
 	orbitdb "berty.tech/go-orbit-db"
@@ -275,6 +277,17 @@ func (s *metaSub) waitFor(id string) error {
 		}
 	}
 	return nil
+}
+
+func protoMarshal(m proto.Message) ([]byte, error) { return proto.Marshal(m) }
+
+// cidOfBytes is the content identifier a log would give these bytes.
+func cidOfBytes(data []byte) cid.Cid {
+	h, err := mh.Sum(data, mh.SHA2_256, -1)
+	if err != nil {
+		panic(err)
+	}
+	return cid.NewCidV1(cid.Raw, h)
 }
 
 func rawKey(pk crypto.PubKey) []byte {
